@@ -1,6 +1,7 @@
 import PyaModel.Proofs.C02
 import PyaModel.Generated.ClassTable
 import PyaModel.Generated.NarrowTables
+import PyaModel.Spec.NarrowSites
 /-!
 # Props/C02 — narrowing never loses the actual value and never widens
 
@@ -339,6 +340,91 @@ theorem nullAbsorbLeak_fixed :
   simp [narrowB, constrain, BCond.ac, BCond.cv, BCond.flatL, BCond.extL, CVal.ext, CVal.flat, AC.isNull, AC.mkOr,
     AC.mkAnd, spliceOr, spliceAnd, absorbOr, absorbAnd, dedupNull, hasNull, AC.invert, AC.invertL, AC.apply,
     AC.applyL, AC.groups, constrainKs, flatten1, applySeq, unite, dedup, dictMem, Ty.hashEq, Ty.beq, Obj.hashable, h3]
+
+/-! ## `match` statements with guards; the extracted constraint on trees without leak -/
+
+/-- Obligation over the regenerated tables: the member values of an `and` expression do not carry the
+operands' constraints any more (/repo ec8deb0), so `extract_constraints` cannot read them back. -/
+theorem liveTables_noAndLeak : liveBool.andValueLeaks = false := by decide +kernel
+
+/-- **The constraint the checker extracts from the value of a condition is sound for every tree of the
+grammar** when `and` values do not leak (the live tree): atoms on the narrowed variable, on captures,
+on other variables, opaque operands, `and`/`or`/`not` of any depth; every valuation of the opaque bits
+and every object of the other variable. Full strength — no exception class beyond the atoms'. -/
+theorem narrowB_keeps (tbl : ClassTable) (T : BoolTable) (hnl : T.andValueLeaks = false) (ρ : Env)
+    (V : Ty) (b : BCond) (pol : Bool) (o : Obj) (hw : b.wfB = true)
+    (hleaf : ∀ c ∈ b.leaves, KeepsK tbl T (c.kAt T (holds tbl c o)) o)
+    (hm : mem tbl o V = true) (hh : holdsB tbl ρ b o = pol) :
+    mem tbl o (narrowB tbl T V b pol) = true := by
+  have hs := cv_sat (tbl := tbl) (ρ := ρ) (o := o) (G := fun k => KeepsK tbl T k o) hnl b hw hleaf
+  unfold CvOk at hs
+  unfold narrowB constrain BCond.ac
+  apply constrainKs_keeps _ hm
+  cases pol <;> simp only [hh, Bool.false_eq_true, if_false, if_true] at hs ⊢
+  · exact sat_apply (fun _ h => h) _ hs.1
+  · exact sat_apply (fun _ h => h) _ hs.1
+
+/-- **`match` statements with guards**: for every statement whose patterns are `None` / `True` /
+`False` / `_` (or a capture) and whose cases carry arbitrary guards of the grammar (atoms on the
+subject, on a capture, on another variable, opaque operands, trees of them), every valuation of the
+opaque bits `ρ` and every object of the subject type: the object belongs to the type inferred for the
+subject in the body of the case that really runs — the first one whose pattern matches *and whose
+guard is true* — or on the fall-through path. Hypotheses: no leak in `and` values, `singOk` (absence
+of `literalInexact` for the three singleton literals), and the guards' atoms on the subject keep the
+object (`GuardsOk`). Extends `match_singletons_sound`. -/
+theorem match_guarded_sound (tbl : ClassTable) (T : BoolTable) (hL : narrowLaws tbl T = true)
+    (hnl : T.andValueLeaks = false) (ρ : Env) (V : Ty) (cs : List MCase) (o : Obj)
+    (hp : gsinglePats cs = true) (hV : singOk tbl V = true)
+    (hg : GuardsOk tbl T (fun m => singOkM tbl m = true) o cs)
+    (ho : objOk tbl T o = true) (hm : mem tbl o V = true) :
+    mem tbl o (gmatchBody tbl T V cs (gfirstMatch tbl ρ cs o)) = true :=
+  match_guarded_core (nlaws_of tbl T hL) hnl hp hg hV ho hm
+
+/-- **A case with an opaque guard narrows nothing for the following cases and the code after the
+statement**, whatever its pattern: `AndConstraint.make([pattern, NULL]).invert()` is
+`OR(¬pattern, NULL)`, which applies nothing — an object that matched the pattern but failed the guard
+flows on. -/
+theorem guard_opaque_keeps_subject (T : BoolTable) (p : Pat) (i : Nat) :
+    MCase.negKs T ⟨p, some (.opaque i)⟩ = [] := by
+  simp only [MCase.negKs, MCase.acs, BCond.ac, BCond.cv, ext_eq, baseOf, AC.isNull, if_true]
+  exact mkAnd_null_invert_apply _ (by simp)
+
+/-- … e.g. `x: int | None`, `match x: case None if undecided(): … case _:` — the second case still
+sees `int | None` (and `None` reaches it when the guard is false), whereas without the guard it sees
+`int`. -/
+theorem guard_opaque_example :
+    gmatchBody liveTable liveBool (.union [.typed C.int, .known .none])
+      [⟨.singleton .none, some (.opaque 0)⟩, ⟨.wildcard, none⟩] 1 = .union [.typed C.int, .known .none] ∧
+    gfirstMatch liveTable { bits := [false] } [⟨.singleton .none, some (.opaque 0)⟩, ⟨.wildcard, none⟩] .none = 1 ∧
+    gmatchBody liveTable liveBool (.union [.typed C.int, .known .none])
+      [⟨.singleton .none, none⟩, ⟨.wildcard, none⟩] 1 = .typed C.int := by
+  refine ⟨?_, by simp [gfirstMatch, MCase.takes, Pat.matches, holdsB, Obj.same_refl], ?_⟩
+  · have h := guard_opaque_keeps_subject liveBool (.singleton .none) 0
+    simp only [gmatchBody, gcaseKs, List.take, List.flatMap_cons, List.flatMap_nil, h]
+    simp [MCase.posKs, MCase.acs, Pat.ac, AC.applyL, AC.apply, constrainKs, flatten1, applySeq, applyK, applyPred,
+      unite, dedup, dictMem, Ty.hashEq, Ty.beq, Obj.hashable]
+  · simp [gmatchBody, gcaseKs, MCase.negKs, MCase.posKs, MCase.acs, Pat.ac, Cond.k, AC.mkAnd, spliceAnd, absorbAnd,
+      hasNull, AC.isNull, AC.invert, K.invert, AC.applyL, AC.apply, constrainKs, flatten1, applySeq, applyK,
+      applyPred, unann, Obj.same, Obj.tag, Obj.pyEq, unite, dedup, dictMem]
+
+/-- **Every place where constraints are combined or inverted is registered**: the list scanned from
+the live source (`liveSites`: calls of `AndConstraint.make`, `OrConstraint.make`,
+`EquivalentConstraint.make`, `.invert()`, `extract_constraints`, `constraint_from_condition`,
+`add_constraint` in name_check_visitor.py / stacked_scopes.py / patma.py, by enclosing function and
+number of calls) is contained in the registry `registeredSites`, which names for each site the stream
+that reaches it with a `NULL_CONSTRAINT` operand at every position (or says that it is outside the
+fragment: `uncoveredSites`). -/
+theorem constraint_combination_sites_registered : liveSites.all siteRegistered = true := by
+  decide +kernel
+
+/-- the registered sites no stream exercises (explicitly outside the fragment) -/
+theorem uncovered_sites :
+    uncoveredSites =
+      [("NameCheckVisitor.check_call", "AndConstraint.make"), ("NameCheckVisitor.check_call", "OrConstraint.make"),
+       ("NameCheckVisitor.check_call", "add_constraint"), ("PatmaVisitor.visit_MatchClass", "AndConstraint.make"),
+       ("PatmaVisitor.visit_MatchMapping", "AndConstraint.make"),
+       ("PatmaVisitor.visit_MatchSequence", "AndConstraint.make")] := by
+  decide +kernel
 
 /-! ## Constraint algebra -/
 
